@@ -490,6 +490,21 @@ def setApiKey (flag : Str) (file : Option Str) (rnd : Str) : Str × Bool :=
     if k = [] then (rnd, true)                                              -- config.go:143-145
     else (k, false)                                                         -- config.go:147
 
+/-- what the start-up finds at `<datadir>/api.key` -/
+structure KeyFs where
+  /-- readable content (`none`: missing, a directory, a dangling link, unreadable) -/
+  file : Option Str
+  /-- `OpenFile(O_CREATE|O_WRONLY|O_TRUNC)` + `WriteString` succeed (config.go:153-158) -/
+  writable : Bool
+  deriving DecidableEq, Repr
+
+/-- **start-up clause.**  The key every RPC server of the node is created with; `none` = `SetApiKey` returns an
+error (the key has to be written and cannot be), `NewNodeWithInjections` returns "cannot set API key"
+(node.go:158-161) and the node does not start.  Never `some []`: see `effectiveKey_never_empty`. -/
+def effectiveKey (flag : Str) (fs : KeyFs) (rnd : Str) : Option Str :=
+  let r := setApiKey flag fs.file rnd
+  if r.2 && !fs.writable then none else some r.1
+
 /-- **as found before the repair** (snapshot 8023026d, node.go:152 vs :170): `NewNodeWithInjections` opened the
 *initial* endpoint (`startInitialRPC`, namespace `bcn` with `syncing` only, replaced by the full one in
 `StartWithHeight`) with `config.RPC.APIKey` as it was on entry, i.e. before `SetApiKey` had looked at `api.key`
